@@ -4,6 +4,8 @@
     c18.trace <op> [key=value]*   ->  <src>.<kind>,<src>.<kind>,...   (`-` when empty)
     c18.excluded <op>             ->  0 | 1
     c18.ops                       ->  all operation names
+    c18.calls <held id | -> <gen ids>  ->  the generator id the draws of each successive
+                                      `sampling.sample` call on one model object come from
 
   keys: n k extra anchors unobs model(combo|inter) clines dds (0/1 strings, `-` empty) dims fake
         local mult hasobs steps scorer(random|dbal|size) init gen(none|pairwise|platePermutation|
@@ -94,6 +96,10 @@ def handle : List String → Option String
   | ["c18.excluded", op] => do
     let op ← opNames.lookup op
     some (showBool op.excluded)
+  | ["c18.calls", held, gens] => do
+    let held ← if held == "-" then some none else (parseNat? held).map some
+    let gens ← parseNatList? gens
+    some (showNatList ((sampleCalls held gens).map (fun o => o.getD 0)))
   | ["c18.ops"] => some (" ".intercalate (opNames.map (·.1)))
   | _ => none
 
